@@ -145,6 +145,16 @@ def run(tier):
         for us in users:
             cases.append(("fu%d" % kf, fd + us, "faulty-declaration-with-users")); kf += 1
             cases.append(("fu%d" % kf, us + fd, "faulty-declaration-with-users")); kf += 1
+    # a local variable whose WRITTEN type is erroneous, with and without an initialiser, used or not afterwards: the
+    # diagnostic of the type must survive (the declaration keeps the only copy of it)
+    badtypes = [("[n]i32", "\tvar n: usize = 2;\n", ""), ("Pont", "", ""), ("[N]i32", "", "const N: usize = 1 / 0;\n"), ("[K]i32", "", ""), ("[N]i32", "", "const N: i32 = 2;\n"),
+                ("&Pont", "", ""), ("[]Pont", "", ""), ("[2]Pont", "", ""), ("[N]i32", "", "const N: bool = true;\n"), ("[N]Pont", "", "const N: usize = 2;\n"), ("[f]i32", "", "fn f() -> usize\n{\n\treturn: 2\n}\n"),
+                ("[N]i32", "", "const N: usize = M;\nconst M: usize = N;\n"), ("&[n]i32", "\tvar n: usize = 2;\n", ""), ("[2][n]i32", "\tvar n: usize = 2;\n", "")]
+    kb = 0
+    for ty, pre, top in badtypes:
+        for init in ("", " = [10, 20]", " = 0", " = Pont { }", " = other"):
+            for after in ("", "\tvar y = data;\n", "\tdata[0] = 1;\n", "\tother = data[0];\n"):
+                cases.append(("bt%d" % kb, top + "fn main()\n{\n\tvar other: i32 = 0;\n" + pre + "\tvar data: %s%s;\n" % (ty, init) + after + "}\n", "faulty-local-types")); kb += 1
     # written types of every shape to depth 2 (and a few deeper ones) at every declaration position: a sample of
     # C11's type-legality programs - whatever the verdict, no stage may fail on them
     from .. import gen_legal
